@@ -87,6 +87,8 @@ module Coq_Pos :
 
   val pred_double : positive -> positive
 
+  val pred_N : positive -> n
+
   type mask = Pos.mask =
   | IsNul
   | IsPos of positive
@@ -104,11 +106,25 @@ module Coq_Pos :
 
   val mul : positive -> positive -> positive
 
+  val iter : ('a1 -> 'a1) -> 'a1 -> positive -> 'a1
+
   val compare_cont : comparison -> positive -> positive -> comparison
 
   val compare : positive -> positive -> comparison
 
   val eqb : positive -> positive -> bool
+
+  val coq_Nsucc_double : n -> n
+
+  val coq_Ndouble : n -> n
+
+  val coq_land : positive -> positive -> n
+
+  val coq_lxor : positive -> positive -> n
+
+  val shiftl : positive -> n -> positive
+
+  val testbit : positive -> n -> bool
 
   val to_little_uint : positive -> uint
 
@@ -132,6 +148,14 @@ module N :
   val leb : n -> n -> bool
 
   val ltb : n -> n -> bool
+
+  val coq_land : n -> n -> n
+
+  val coq_lxor : n -> n -> n
+
+  val shiftl : n -> n -> n
+
+  val testbit : n -> n -> bool
 
   val to_uint : n -> uint
  end
@@ -219,6 +243,53 @@ val bump_patch : semver -> semver option
 val bump_minor : semver -> semver option
 
 val bump_major : semver -> semver option
+
+type ('vS, 'vr) vSReq = { rq_eqb : ('vS -> 'vS -> bool); rq_empty : 'vS;
+                          rq_singleton : ('vr -> 'vS);
+                          rq_complement : ('vS -> 'vS);
+                          rq_intersection : ('vS -> 'vS -> 'vS);
+                          rq_contains : ('vS -> 'vr -> bool) }
+
+type ('vS, 'vr) vSOps = { vs_eqb : ('vS -> 'vS -> bool); vs_empty : 'vS;
+                          vs_singleton : ('vr -> 'vS);
+                          vs_complement : ('vS -> 'vS);
+                          vs_intersection : ('vS -> 'vS -> 'vS);
+                          vs_contains : ('vS -> 'vr -> bool); vs_full : 
+                          'vS; vs_union : ('vS -> 'vS -> 'vS);
+                          vs_is_disjoint : ('vS -> 'vS -> bool);
+                          vs_subset_of : ('vS -> 'vS -> bool) }
+
+val full_default : ('a1, 'a2) vSReq -> 'a1
+
+val union_default : ('a1, 'a2) vSReq -> 'a1 -> 'a1 -> 'a1
+
+val is_disjoint_default : ('a1, 'a2) vSReq -> 'a1 -> 'a1 -> bool
+
+val subset_of_default : ('a1, 'a2) vSReq -> 'a1 -> 'a1 -> bool
+
+val with_defaults : ('a1, 'a2) vSReq -> ('a1, 'a2) vSOps
+
+type v8 =
+| V0
+| V1
+| V2
+| V3
+| V4
+| V5
+| V6
+| V7
+
+val v8_idx : v8 -> n
+
+val v8_of_N : n -> v8
+
+val all_v8 : v8 list
+
+val bs_mask : n
+
+val bitset_req : (n, v8) vSReq
+
+val bitset_vs : (n, v8) vSOps
 
 type 't bound =
 | Incl of 't
@@ -371,6 +442,8 @@ module RangeM :
   val render_token : (ver -> text) -> token -> text
 
   val render : (ver -> text) -> token list list -> text
+
+  val range_vs : (range, ver) vSOps
  end
 
 module ZV :
@@ -527,6 +600,41 @@ module RZ :
   val render_token : (ver -> text) -> token -> text
 
   val render : (ver -> text) -> token list list -> text
+
+  val range_vs : (range, ver) vSOps
  end
 
 val rz_display : RZ.range -> text
+
+type 'vS term =
+| Pos of 'vS
+| Neg of 'vS
+
+type relation =
+| Satisfied
+| Contradicted
+| Inconclusive
+
+val t_any : ('a1, 'a2) vSOps -> 'a1 term
+
+val t_empty : ('a1, 'a2) vSOps -> 'a1 term
+
+val t_exact : ('a1, 'a2) vSOps -> 'a2 -> 'a1 term
+
+val t_is_positive : 'a1 term -> bool
+
+val t_negate : 'a1 term -> 'a1 term
+
+val t_contains : ('a1, 'a2) vSOps -> 'a1 term -> 'a2 -> bool
+
+val t_intersection : ('a1, 'a2) vSOps -> 'a1 term -> 'a1 term -> 'a1 term
+
+val t_is_disjoint : ('a1, 'a2) vSOps -> 'a1 term -> 'a1 term -> bool
+
+val t_union : ('a1, 'a2) vSOps -> 'a1 term -> 'a1 term -> 'a1 term
+
+val t_subset_of : ('a1, 'a2) vSOps -> 'a1 term -> 'a1 term -> bool
+
+val t_relation_with : ('a1, 'a2) vSOps -> 'a1 term -> 'a1 term -> relation
+
+val t_eqb : ('a1, 'a2) vSOps -> 'a1 term -> 'a1 term -> bool
